@@ -4,8 +4,11 @@ A patch that no longer applies to HEAD (a later fix touched the same lines) is a
 import json, os, subprocess, sys, glob
 V = os.path.dirname(os.path.dirname(os.path.abspath(__file__)))
 bases = ["HEAD"] + subprocess.run(["git","-C","/repo","log","--format=%h","-n","12"],capture_output=True,text=True).stdout.split()[1:]
-out = {}
 only = sys.argv[1:]
+out = {}
+rp = os.path.join(V,"seeded","regression.json")
+if only and os.path.exists(rp):
+    out = json.load(open(rp))  # partial re-run: keep the other entries
 for d in sorted(glob.glob(os.path.join(V,"seeded","C*-*"))):
     key = os.path.basename(d)
     if only and key not in only and key.split("-")[0] not in only: continue
@@ -20,7 +23,7 @@ for d in sorted(glob.glob(os.path.join(V,"seeded","C*-*"))):
             j = json.loads(r.stdout[r.stdout.index("{"):r.stdout.rindex("}")+1])
         except Exception:
             continue
-        if j.get("applies"):
+        if j.get("applies") and j.get("suite_passes_with_change"):  # applies textually but no longer builds: older base
             res = j; res["base"] = b; break
     if res is None:
         out[key] = {"error": "patch applies to none of the recent commits"}
